@@ -10,8 +10,9 @@ use icy_engine::{
 
 pub const EXTS: [&str; 19] = ["ans", "ice", "diz", "icy", "idf", "bin", "xb", "tnd", "pcb", "avt", "asc", "adf", "msg", "an1", "an5", "an9", "seq", "ata", "xyz"];
 
-pub const DISK_FAULTS: [&str; 12] = [
+pub const DISK_FAULTS: [&str; 13] = [
     "short", "torn", "lost_sector", "stale_tail", "bitrot", "overwrite", "misdirected", "dup_sector", "misnamed", "sauce_tail_only", "comnt_cut", "header_extreme",
+    "number_extreme",
 ];
 
 /// Faults of the clipboard channel (bytes another process put there), on top of the generic ones.
@@ -551,6 +552,45 @@ pub fn disk_fault(rng: &mut Rng, kind: &str, name: &mut String, bytes: &mut Vec<
             }
             format!("header_extreme at={at} val={}", to_hex(v))
         }
+        "number_extreme" => {
+            // the text counterpart of header_extreme: one decimal number of the file (a count line of a
+            // palette file, a parameter of a control sequence, a SAUCE date) holds an extreme value
+            let mut runs: Vec<(usize, usize)> = Vec::new();
+            let mut i = 0;
+            while i < len.min(8192) {
+                if bytes[i].is_ascii_digit() {
+                    let s = i;
+                    while i < len && bytes[i].is_ascii_digit() {
+                        i += 1;
+                    }
+                    runs.push((s, i - s));
+                } else {
+                    i += 1;
+                }
+            }
+            if runs.is_empty() {
+                return "number_extreme noop".into();
+            }
+            // half of the time one of the first numbers of the file (counts and sizes stand in front)
+            let (s, l) = if rng.chance(1, 2) { runs[rng.usize(runs.len().min(4))] } else { *rng.pick(&runs) };
+            const VALS: [&str; 12] = [
+                "0",
+                "1",
+                "255",
+                "256",
+                "65535",
+                "65536",
+                "2147483647",
+                "2147483648",
+                "4294967295",
+                "4294967296",
+                "9223372036854775807",
+                "18446744073709551615",
+            ];
+            let v = if rng.chance(1, 8) { "99999999999999999999999999" } else { *rng.pick(&VALS) };
+            bytes.splice(s..s + l, v.bytes());
+            format!("number_extreme at={s} was_len={l} val={v}")
+        }
         _ => "none".into(),
     }
 }
@@ -578,7 +618,13 @@ pub fn gen_load(prop: &'static str, rng: &mut Rng, _run: u64, _thorough: bool) -
         };
         for _ in 0..n {
             let is_buffer = entry == "Buffer::from_bytes";
-            let kind = if entry == "Layer::from_clipboard_data" && rng.chance(1, 2) { *rng.pick(&IPC_FAULTS) } else { *rng.pick(&DISK_FAULTS) };
+            let kind = if entry == "Layer::from_clipboard_data" && rng.chance(1, 2) {
+                *rng.pick(&IPC_FAULTS)
+            } else if entry.starts_with("Palette::") && rng.chance(1, 3) {
+                "number_extreme"
+            } else {
+                *rng.pick(&DISK_FAULTS)
+            };
             let other = |r: &mut Rng| -> Vec<u8> {
                 if is_buffer {
                     let d = gen_doc(r, 80, 30);
